@@ -219,8 +219,21 @@ impl<C: CompareBytes, S: BuildHasher> WordComparator<C, S> {
     fn hash_one(&self, text: &[u8]) -> u64 {
         let mut state = self.hash_builder.build_hasher();
         self.compare.hash(text, &mut state);
+        #[cfg(jj_vcs_jj_verif)]
+        return state.finish() & verif_hash_mask();
+        #[cfg(not(jj_vcs_jj_verif))]
         state.finish()
     }
+}
+
+/// Simulation hook: bits of the word hash that are kept (all of them unless a
+/// harness asks for a deliberately weak hash to provoke collisions).
+#[cfg(jj_vcs_jj_verif)]
+pub static VERIF_HASH_MASK: std::sync::atomic::AtomicU64 = std::sync::atomic::AtomicU64::new(u64::MAX);
+
+#[cfg(jj_vcs_jj_verif)]
+fn verif_hash_mask() -> u64 {
+    VERIF_HASH_MASK.load(std::sync::atomic::Ordering::Relaxed)
 }
 
 /// Index in a list of word (or token) ranges in `DiffSource`.
